@@ -350,7 +350,7 @@ Qed.
 Lemma vul_expected_triples : forall F, map drop_heading (vul_expected F) = triples (by_severity (vul_items F)).
 Proof.
   intro F; unfold vul_expected, by_severity, triples at 1.
-  rewrite !map_app, !drop_heading_tag_items, !flat_map_app; reflexivity.
+  rewrite !map_app; unfold entry; rewrite !drop_heading_tag_items, !flat_map_app; reflexivity.
 Qed.
 
 Lemma vul_lines : forall F, items_no_lf F ->
@@ -369,14 +369,17 @@ Proof.
   - intros [v [Hin Hne]]; exists (isort entry_leb v); apply in_by_severity, in_rendered_items; exists v; tauto.
 Qed.
 
+Lemma triples_perm : forall (P : Type) (a b : findings P), Permutation a b -> Permutation (triples a) (triples b).
+Proof. intros P a b H; unfold triples; apply Permutation_flat_map; exact H. Qed.
+
 Theorem vul_total : forall F, items_no_lf F ->
   printed_total vul_overview_prefix (generate_vulnerability_report F) =
   Some (N.of_nat (List.length (read_vulnerability_report (generate_vulnerability_report F)))).
 Proof.
   intros F H; rewrite (vul_roundtrip F H).
   rewrite <- (map_length drop_heading), vul_expected_triples.
-  rewrite (Permutation_length (Permutation_flat_map _ (by_severity_perm (vul_items F)))).
-  fold (triples (vul_items F)); rewrite <- total_entries_length.
+  rewrite (Permutation_length (triples_perm _ _ _ (by_severity_perm (vul_items F)))).
+  rewrite <- total_entries_length.
   destruct vul_ovw_finite as [_ [_ [_ [Hd _]]]].
   eapply printed_total_first; [exact Hd|].
   rewrite (vul_lines F H); unfold doc_vul; rewrite doc_lines_cons_plain; unfold ovw_lines; reflexivity.
@@ -389,7 +392,7 @@ Theorem vul_heading_iff : forall F s, items_no_lf F ->
 Proof.
   intros F s H; rewrite (vul_lines F H).
   destruct (vul_heading_finite s) as [_ [_ [_ Hin_h]]].
-  rewrite (shape_heading_iff Vulnerability Vulnerability_idx Vulnerability_all Vulnerability_all_complete Vulnerability_idx_inj
+  rewrite (shape_heading_iff Vulnerability Vulnerability_idx Vulnerability_all Vulnerability_all_complete
              vul_keys vul_headings vulnerability_section vul_cat_ok _ _ _ (vul_shape F) Hin_h).
   assert (G : forall s' ls, In (BPlain ls) (group s' (vul_items F)) ->
                             ls = [heading_of s'] /\ of_severity s' (vul_items F) <> []).
@@ -447,3 +450,119 @@ Qed.
 
 Theorem vul_severity_required : forall v, vul_severity v = required_severity v.
 Proof. intro v; destruct v; vm_compute; reflexivity. Qed.
+
+(* ================================================================== statements in terms of the specification *)
+Lemma names_without_lf_items : forall (P : Type) (F : findings P), names_without_lf F -> items_no_lf F.
+Proof.
+  intros P F H; unfold items_no_lf, names_no_lf; rewrite Forall_forall; intros [p v] Hin; cbn [snd].
+  rewrite Forall_forall; intros [f ls] Hfl; cbn [fst]; exact (H p v f ls Hin Hfl).
+Qed.
+
+Lemma wf_names : forall (P : Type) (F : findings P), wf_findings F -> names_without_lf F.
+Proof. intros P F H p v f ls Hin Hfl; destruct (H p v Hin) as [_ H2]; destruct (H2 f ls Hfl) as [_ H3]; exact H3. Qed.
+
+Lemma wf_has_finding : forall (P : Type) (F : findings P) p, wf_findings F ->
+  ((exists v, In (p, v) F /\ v <> []) <-> has_finding p F).
+Proof.
+  intros P F p H; split.
+  - intros [v [Hin Hne]]; destruct v as [|[f ls] v]; [contradiction Hne; reflexivity|].
+    destruct (H p _ Hin) as [_ H2]; destruct (H2 f ls (or_introl eq_refl)) as [Hls _].
+    destruct ls as [|z ls]; [contradiction Hls; reflexivity|].
+    exists ((f, z :: ls) :: v), f, (z :: ls), z; repeat split; [exact Hin | left; reflexivity | left; reflexivity].
+  - intros [v [f [ls [z [Hin [Hfl _]]]]]]; exists v; split; [exact Hin | intro E; subst v; destruct Hfl].
+Qed.
+
+Theorem opt_roundtrip_spec : forall F, names_without_lf F ->
+  map drop_heading (read_optimization_report (generate_optimization_report F)) = triples (rendered_items Optimization_idx F).
+Proof. intros F H; rewrite (opt_roundtrip F (names_without_lf_items _ F H)); apply drop_heading_tag_items. Qed.
+
+Theorem qa_roundtrip_spec : forall F, names_without_lf F ->
+  map drop_heading (read_qa_report (generate_qa_report F)) = triples (rendered_items QualityAssurance_idx F).
+Proof. intros F H; rewrite (qa_roundtrip F (names_without_lf_items _ F H)); apply drop_heading_tag_items. Qed.
+
+Theorem vul_roundtrip_spec : forall F, names_without_lf F ->
+  map drop_heading (read_vulnerability_report (generate_vulnerability_report F)) =
+  triples (by_severity (rendered_items Vulnerability_idx F)).
+Proof. intros F H; rewrite (vul_roundtrip F (names_without_lf_items _ F H)); apply vul_expected_triples. Qed.
+
+Theorem opt_entries_exact : forall F, names_without_lf F ->
+  Permutation (map drop_heading (read_optimization_report (generate_optimization_report F))) (triples F).
+Proof. intros F H; rewrite (opt_roundtrip_spec F H); apply triples_rendered_items. Qed.
+
+Theorem qa_entries_exact : forall F, names_without_lf F ->
+  Permutation (map drop_heading (read_qa_report (generate_qa_report F))) (triples F).
+Proof. intros F H; rewrite (qa_roundtrip_spec F H); apply triples_rendered_items. Qed.
+
+Theorem vul_entries_exact : forall F, names_without_lf F ->
+  Permutation (map drop_heading (read_vulnerability_report (generate_vulnerability_report F))) (triples F).
+Proof.
+  intros F H; rewrite (vul_roundtrip_spec F H).
+  eapply perm_trans; [apply triples_perm, by_severity_perm | apply triples_rendered_items].
+Qed.
+
+Theorem opt_section_iff_spec : forall F p, wf_findings F ->
+  (has_line (key_line (optimization_section p)) (generate_optimization_report F) <-> has_finding p F).
+Proof.
+  intros F p H; unfold has_line.
+  rewrite (opt_section_iff F p (names_without_lf_items _ F (wf_names _ F H))); apply wf_has_finding; exact H.
+Qed.
+
+Theorem qa_section_iff_spec : forall F p, wf_findings F ->
+  (has_line (key_line (qa_section p)) (generate_qa_report F) <-> has_finding p F).
+Proof.
+  intros F p H; unfold has_line.
+  rewrite (qa_section_iff F p (names_without_lf_items _ F (wf_names _ F H))); apply wf_has_finding; exact H.
+Qed.
+
+Theorem vul_section_iff_spec : forall F p, wf_findings F ->
+  (has_line (key_line (vulnerability_section p)) (generate_vulnerability_report F) <-> has_finding p F).
+Proof.
+  intros F p H; unfold has_line.
+  rewrite (vul_section_iff F p (names_without_lf_items _ F (wf_names _ F H))); apply wf_has_finding; exact H.
+Qed.
+
+Theorem opt_total_spec : forall F, names_without_lf F ->
+  printed_total opt_overview_prefix (generate_optimization_report F) =
+  Some (N.of_nat (List.length (read_optimization_report (generate_optimization_report F)))).
+Proof. intros F H; apply opt_total, names_without_lf_items; exact H. Qed.
+
+Theorem vul_total_spec : forall F, names_without_lf F ->
+  printed_total vul_overview_prefix (generate_vulnerability_report F) =
+  Some (N.of_nat (List.length (read_vulnerability_report (generate_vulnerability_report F)))).
+Proof. intros F H; apply vul_total, names_without_lf_items; exact H. Qed.
+
+(* the number printed is the number of (file, line) findings of the map *)
+Theorem opt_total_findings : forall F, names_without_lf F ->
+  printed_total opt_overview_prefix (generate_optimization_report F) = Some (N.of_nat (List.length (triples F))).
+Proof.
+  intros F H; rewrite (opt_total_spec F H), <- (map_length drop_heading).
+  rewrite (Permutation_length (opt_entries_exact F H)); reflexivity.
+Qed.
+
+Theorem vul_total_findings : forall F, names_without_lf F ->
+  printed_total vul_overview_prefix (generate_vulnerability_report F) = Some (N.of_nat (List.length (triples F))).
+Proof.
+  intros F H; rewrite (vul_total_spec F H), <- (map_length drop_heading).
+  rewrite (Permutation_length (vul_entries_exact F H)); reflexivity.
+Qed.
+
+Theorem vul_heading_iff_spec : forall F s, wf_findings F ->
+  (has_line (heading_of s) (generate_vulnerability_report F) <->
+   exists p, required_severity p = s /\ has_finding p F).
+Proof.
+  intros F s H; unfold has_line.
+  rewrite (vul_heading_iff F s (names_without_lf_items _ F (wf_names _ F H))); split.
+  - intros [p [v [Hin [Hne Hs]]]]; exists p; split; [rewrite <- vul_severity_required; exact Hs|].
+    apply (wf_has_finding _ F p H); exists v; tauto.
+  - intros [p [Hs Hf]]; apply (wf_has_finding _ F p H) in Hf; destruct Hf as [v [Hin Hne]].
+    exists p, v; repeat split; try assumption; rewrite vul_severity_required; exact Hs.
+Qed.
+
+Theorem vul_own_heading_spec : forall F, names_without_lf F ->
+  Forall (fun e => let '(h, p, _, _) := e in h = Some (heading_of (required_severity p)))
+         (read_vulnerability_report (generate_vulnerability_report F)).
+Proof.
+  intros F H; pose proof (vul_entries_under_own_heading F (names_without_lf_items _ F H)) as G.
+  rewrite Forall_forall in *; intros [[[h p] f] z] Hin; specialize (G _ Hin); cbn in G.
+  rewrite <- vul_severity_required; exact G.
+Qed.
